@@ -1,6 +1,6 @@
 /-
 C14 — Phenotyping and breeding-value estimation preserve truth and alignment.
-Property theorems only (helper lemmas: Lemmas/PhenoLoop, PhenoBV, PhenoKey, PhenoH2).
+Property theorems only (helper lemmas: Lemmas/PhenoLoop, PhenoBV, PhenoKey, PhenoH2, PhenoVar, PhenoLLN, PhenoNames, PhenoNan).
 
 Model: PybropsModel/Model/Pheno.lean
   `envLoop` / `repLoop` / `block` transcribe G_E_Phenotyping.phenotype l.415-451 (the normal draws are the oracle
@@ -9,14 +9,21 @@ Model: PybropsModel/Model/Pheno.lean
   MeanPhenotypicBreedingValue.estimate l.132-185.
 
 Clause "with noise the realised environment, replicate and error variances converge to the requested ones":
-the model proves that the realised effects of every record ARE the generator's draws, unscaled and unmixed
-(`trial_cells`, second component); that the draws are N(0, diag(var_*)) is numpy's contract, whose arguments the
-harness records and compares on every case; the limit itself is only tested statistically (`stat` stream).
+`realised_variance_components` reduces the three variance components read off the frame to statistics of the generator's
+draws (algebra, any field); `realised_error_variance_converges(_to_requested)` proves the almost-sure limit for the error
+component for i.i.d. square-integrable draws, in particular for the product measure N(0, var_err)^N (Mathlib's strong law);
+the replicate and environment components converge to `var_rep + var_err/ntaxa` etc. (`..._partial`).  That numpy's
+`multivariate_normal` delivers such draws is its contract; the arguments handed to it are recorded and compared on every
+case by the harness, and the limit is additionally tested statistically (`stat` stream).
 -/
 import PybropsModel.Lemmas.PhenoLoop
 import PybropsModel.Lemmas.PhenoBV
 import PybropsModel.Lemmas.PhenoKey
 import PybropsModel.Lemmas.PhenoH2
+import PybropsModel.Lemmas.PhenoVar
+import PybropsModel.Lemmas.PhenoLLN
+import PybropsModel.Lemmas.PhenoNames
+import PybropsModel.Lemmas.PhenoNan
 set_option autoImplicit false
 set_option linter.unusedSectionVars false
 
@@ -150,60 +157,153 @@ end zero
 section var
 variable {L G α : Type} [Field α] [CharZero α]
 
-/-- **Variance clause, algebraic half (error component).**  In every (environment, replicate) cell and every trait the
-    realised error variance — the population variance of `record − true value` over the taxa of the cell — equals the
-    variance of the error draws themselves: the environment and replicate effects are constant within a cell and cancel,
-    nothing is rescaled.  Together with numpy's contract (the draws are i.i.d. N(0, var_err); the covariance argument
-    `diag(var_err)` is recorded and compared by the harness on every case) this is what makes the realised error variance
-    converge to the requested one.
-    FULL STATEMENT (not proved; needs the law of large numbers for the generator's output): for i.i.d. N(0, diag(var_*))
-    draws the realised environment, replicate and error variances converge almost surely to var_env, var_rep, var_err as
-    the numbers of environments, replicates and taxa grow.  Only tested statistically (`stat` stream of the harness). -/
-theorem realised_error_variance_partial (gv : List (List α)) (labs : List (L × Option G)) (t : Nat) (nrep : List Nat)
-    (s : List (Draw α)) (rows : List (Rec L G α)) (hrun : envLoop gv labs 0 nrep s = some rows)
+/-- **Variance clause, algebraic part — all three components.**  What an analyst reads off the frame equals the
+    corresponding statistic of the generator's draws, nothing rescaled or mixed (trait `j`, population variance):
+    * realised error variance (within a cell, over the taxa, of `record − true value`) = variance of that cell's error draws;
+    * realised replicate variance (over the replicates of an environment, of the cell means) = variance of
+      `replicate draw + mean error of the cell`;
+    * realised environment variance (over the environments, of the environment means) = variance of
+      `environment draw + mean over its replicates of (replicate draw + mean error)`.
+    The environment effect cancels inside an environment, environment and replicate effects cancel inside a cell. -/
+theorem realised_variance_components (gv : List (List α)) (labs : List (L × Option G)) (t : Nat)
+    (nrep : List Nat) (s : List (Draw α)) (rows : List (Rec L G α))
+    (hrun : envLoop gv labs 0 nrep s = some rows)
     (hlab : labs.length = gv.length) (hgv : ∀ g ∈ gv, g.length = t)
-    (hshape : ∀ d ∈ s, drawShapeOk gv.length t d = true) :
+    (hshape : ∀ d ∈ s, drawShapeOk gv.length t d = true)
+    (hn : gv ≠ []) (hpos : ∀ k ∈ nrep, 0 < k) :
     ∃ (ds : List (EnvDraw α)) (rest : List (Draw α)), ds.map (fun d => d.reps.length) = nrep ∧
       s = flattenDraws ds ++ rest ∧
-      ∀ e (he : e < ds.length) r (hr : r < ds[e].reps.length) j, j < t →
-        popVar (List.zipWith (fun v g => v.getD j 0 - g.getD j 0)
-          ((rows.filter (fun x => x.env = e + 1 ∧ x.rep = r + 1)).map (fun x => x.vals)) gv) =
-        popVar (ds[e].reps[r].err.map (fun er => er.getD j 0)) := by
-  have hmat : ∀ m, Draw.mat m ∈ s → m.length = gv.length := by
-    intro m hm
-    have := hshape _ hm
-    simp only [drawShapeOk, Bool.and_eq_true, beq_iff_eq] at this
-    exact this.1
-  obtain ⟨ds, rest, hd, hs, _, hcell, _⟩ := trial_cells gv labs nrep s rows hrun hlab hmat
+      ∀ j, j < t →
+        (∀ e (he : e < ds.length) r (hr : r < ds[e].reps.length),
+          realisedErrVar rows gv j e r = popVar (errCol ds[e].reps[r] j)) ∧
+        (∀ e (he : e < ds.length),
+          realisedRepVar rows gv j e ds[e].reps.length = popVar (ds[e].reps.map (repTerm j))) ∧
+        realisedEnvVar rows gv j nrep = popVar (ds.map (envTerm j)) := by
+  obtain ⟨ds, rest, hd, hs, hrows⟩ := envLoop_some gv labs nrep 0 s rows hrun
   refine ⟨ds, rest, hd, hs, ?_⟩
-  intro e he r hr j hj
-  obtain ⟨_, hv⟩ := hcell e he r hr
-  obtain ⟨hin1, hin2, hin3⟩ := mem_flattenDraws_err ds ds[e] (List.getElem_mem he) ds[e].reps[r] (List.getElem_mem hr)
-  have mem : ∀ d, d ∈ flattenDraws ds → d ∈ s := fun d hd => hs ▸ List.mem_append_left _ hd
-  have henv_len : ds[e].env.length = t := by simpa [drawShapeOk] using hshape _ (mem _ hin3)
-  have hrep_len : ds[e].reps[r].rep.length = t := by simpa [drawShapeOk] using hshape _ (mem _ hin2)
-  have herr_shape := hshape _ (mem _ hin1)
-  simp only [drawShapeOk, Bool.and_eq_true, beq_iff_eq, List.all_eq_true] at herr_shape
-  rw [hv]
-  have : List.zipWith (fun v g => v.getD j 0 - g.getD j 0)
-      (List.zipWith (fun g er => vadd (vadd (vadd g ds[e].env) ds[e].reps[r].rep) er) gv ds[e].reps[r].err) gv =
-      (ds[e].reps[r].err.map (fun er => er.getD j 0)).map
-        (fun x => (ds[e].env.getD j 0 + ds[e].reps[r].rep.getD j 0) + x) := by
-    apply List.ext_getElem
-    · simp [herr_shape.1]
-    · intro i h1 h2
-      have hi : i < gv.length := by simp at h1; omega
-      have hie : i < ds[e].reps[r].err.length := by rw [herr_shape.1]; exact hi
-      have hg : gv[i].length = t := hgv _ (List.getElem_mem _)
-      have her : (ds[e].reps[r].err[i]).length = t := herr_shape.2 _ (List.getElem_mem hie)
-      simp only [List.getElem_zipWith, List.getElem_map]
-      rw [vadd_getD _ _ j (by simp [vadd_length, hg, henv_len, hrep_len, hj]) (by rw [her]; exact hj),
-        vadd_getD _ _ j (by simp [vadd_length, hg, henv_len, hj]) (by rw [hrep_len]; exact hj),
-        vadd_getD _ _ j (by rw [hg]; exact hj) (by rw [henv_len]; exact hj)]
-      ring
-  rw [this, popVar_translate]
+  intro j hj
+  have hsh : DrawsShaped gv.length t ds :=
+    drawsShaped_of_stream gv.length t ds s (fun d hd' => hs ▸ List.mem_append_left _ hd') hshape
+  have hpos' : ∀ d ∈ ds, d.reps ≠ [] := by
+    intro d hd' h
+    have : d.reps.length ∈ nrep := by rw [← hd]; exact List.mem_map.mpr ⟨d, hd', rfl⟩
+    have := hpos _ this
+    rw [h] at this
+    simp at this
+  have := components_closed_form gv labs t ds hlab hgv hsh hn hpos' j hj
+  rw [hrows, ← hd]
+  exact this
 
 end var
+
+section conv
+open MeasureTheory ProbabilityTheory Filter Topology
+variable {L G Ω : Type} [MeasurableSpace Ω] {μ : Measure Ω} [IsProbabilityMeasure μ]
+
+/-- **Variance clause, probabilistic part — error component.**  If the error draws of a cell are the first `n` terms of a
+    pairwise independent, identically distributed, square-integrable sequence `X` (numpy's contract for
+    `multivariate_normal(0, diag(var_err), ntaxa)`, whose arguments the harness records on every case), then almost surely
+    the realised error variance of that cell converges to `Var[X 0]` — the requested `var_err` — as the number of taxa
+    grows (strong law of large numbers for `X` and `X²`; any trial layout, any true values). -/
+theorem realised_error_variance_converges (X : ℕ → Ω → ℝ) (hL2 : MemLp (X 0) 2 μ)
+    (hindep : Pairwise (Function.onFun (fun f g => f ⟂ᵢ[μ] g) X))
+    (hident : ∀ i, IdentDistrib (X i) (X 0) μ μ) :
+    ∀ᵐ ω ∂μ, ∀ (gv : ℕ → List (List ℝ)) (labs : ℕ → List (L × Option G)) (ds : ℕ → List (EnvDraw ℝ))
+      (t j e r : ℕ), j < t →
+      (∀ n, 1 ≤ n → (gv n).length = n ∧ (labs n).length = n ∧ (∀ g ∈ gv n, g.length = t) ∧
+        DrawsShaped n t (ds n) ∧ (∀ d ∈ ds n, d.reps ≠ []) ∧
+        ∃ (he : e < (ds n).length) (hr : r < (ds n)[e].reps.length),
+          errCol (ds n)[e].reps[r] j = (List.range n).map (fun i => X i ω)) →
+      Tendsto (fun n => realisedErrVar (envBlocks (gv n) (labs n) 0 (ds n)) (gv n) j e r) atTop
+        (𝓝 (Var[X 0; μ])) := by
+  filter_upwards [popVar_tendsto_variance X hL2 hindep hident] with ω hω
+  intro gv labs ds t j e r hj hfam
+  refine hω.congr' ?_
+  filter_upwards [eventually_ge_atTop 1] with n hn
+  obtain ⟨h1, h2, h3, h4, h5, he, hr, hcol⟩ := hfam n hn
+  have hne : gv n ≠ [] := by
+    intro h
+    rw [h] at h1
+    simp at h1
+    omega
+  have := (components_closed_form (gv n) (labs n) t (ds n) (h2.trans h1.symm) h3 (by rw [h1]; exact h4) hne h5 j hj).1 e he r hr
+  rw [this, hcol]
+
+/-- **Replicate component.**  If the replicate terms `replicate draw + mean error of the cell` of environment `e` are the
+    first `k` terms of an i.i.d. square-integrable sequence `Y`, the realised replicate variance converges almost surely
+    to `Var[Y 0]` as the number of replicates grows.  `_partial`: the limit is `var_rep + var_err / ntaxa`
+    (`Pheno.variance_effect_add_mean`), i.e. the requested replicate variance PLUS the mean-error term — the statistic the
+    frame offers does not converge to `var_rep` alone.
+    FULL STATEMENT (as worded in the property, "converge to the requested ones"): true of the error component
+    (`realised_error_variance_converges`); for replicate and environment components only up to the stated mean-error terms,
+    which vanish as the number of taxa (and replicates) grows as well. -/
+theorem realised_replicate_variance_converges_partial (Y : ℕ → Ω → ℝ) (hL2 : MemLp (Y 0) 2 μ)
+    (hindep : Pairwise (Function.onFun (fun f g => f ⟂ᵢ[μ] g) Y))
+    (hident : ∀ i, IdentDistrib (Y i) (Y 0) μ μ) :
+    ∀ᵐ ω ∂μ, ∀ (gv : List (List ℝ)) (labs : List (L × Option G)) (ds : ℕ → List (EnvDraw ℝ)) (t j e : ℕ), j < t →
+      labs.length = gv.length → (∀ g ∈ gv, g.length = t) → gv ≠ [] →
+      (∀ k, 1 ≤ k → DrawsShaped gv.length t (ds k) ∧ (∀ d ∈ ds k, d.reps ≠ []) ∧
+        ∃ (he : e < (ds k).length), (ds k)[e].reps.length = k ∧
+          (ds k)[e].reps.map (repTerm j) = (List.range k).map (fun i => Y i ω)) →
+      Tendsto (fun k => realisedRepVar (envBlocks gv labs 0 (ds k)) gv j e k) atTop (𝓝 (Var[Y 0; μ])) := by
+  filter_upwards [popVar_tendsto_variance Y hL2 hindep hident] with ω hω
+  intro gv labs ds t j e hj hlab hgv hne hfam
+  refine hω.congr' ?_
+  filter_upwards [eventually_ge_atTop 1] with k hk
+  obtain ⟨h4, h5, he, hlen, hcol⟩ := hfam k hk
+  have := (components_closed_form gv labs t (ds k) hlab hgv h4 hne h5 j hj).2.1 e he
+  rw [hlen] at this
+  rw [this, hcol]
+
+/-- **Environment component.**  If the environment terms `environment draw + mean of the replicate terms` are the first
+    `m` terms of an i.i.d. square-integrable sequence `Z`, the realised environment variance converges almost surely to
+    `Var[Z 0]` (= `var_env + (var_rep + var_err/ntaxa)/nrep` for equal replicate counts) as the number of environments
+    grows.  `_partial` for the same reason as the replicate component. -/
+theorem realised_environment_variance_converges_partial (Z : ℕ → Ω → ℝ) (hL2 : MemLp (Z 0) 2 μ)
+    (hindep : Pairwise (Function.onFun (fun f g => f ⟂ᵢ[μ] g) Z))
+    (hident : ∀ i, IdentDistrib (Z i) (Z 0) μ μ) :
+    ∀ᵐ ω ∂μ, ∀ (gv : List (List ℝ)) (labs : List (L × Option G)) (ds : ℕ → List (EnvDraw ℝ)) (t j : ℕ), j < t →
+      labs.length = gv.length → (∀ g ∈ gv, g.length = t) → gv ≠ [] →
+      (∀ m, 1 ≤ m → DrawsShaped gv.length t (ds m) ∧ (∀ d ∈ ds m, d.reps ≠ []) ∧
+        (ds m).map (envTerm j) = (List.range m).map (fun i => Z i ω)) →
+      Tendsto (fun m => realisedEnvVar (envBlocks gv labs 0 (ds m)) gv j ((ds m).map (fun d => d.reps.length))) atTop
+        (𝓝 (Var[Z 0; μ])) := by
+  filter_upwards [popVar_tendsto_variance Z hL2 hindep hident] with ω hω
+  intro gv labs ds t j hj hlab hgv hne hfam
+  refine hω.congr' ?_
+  filter_upwards [eventually_ge_atTop 1] with m hm
+  obtain ⟨h4, h5, hcol⟩ := hfam m hm
+  have := (components_closed_form gv labs t (ds m) hlab hgv h4 hne h5 j hj).2.2
+  rw [this, hcol]
+
+end conv
+
+section gauss
+open MeasureTheory ProbabilityTheory Filter Topology
+variable {L G : Type}
+
+/-- **Variance clause for the error component, as the property words it.**  Let the error draws be independent
+    `N(0, var_err)` variates — the push-forward of the product measure `N(0, var_err)^ℕ` through the model, which is numpy's
+    contract for `multivariate_normal(0, diag(var_err), ntaxa)` per trait.  For almost every generator stream `ω`, for
+    every family of trials (any true values, labels, layouts, other draws) in which the error column of cell `(e, r)` of
+    the `n`-taxon trial is the first `n` draws of the stream, the realised error variance of that cell converges to the
+    REQUESTED `var_err` as the number of taxa grows. -/
+theorem realised_error_variance_converges_to_requested (varErr : NNReal) :
+    ∀ᵐ ω ∂(Measure.infinitePi (fun _ : ℕ => gaussianReal 0 varErr)),
+      ∀ (gv : ℕ → List (List ℝ)) (labs : ℕ → List (L × Option G)) (ds : ℕ → List (EnvDraw ℝ))
+      (t j e r : ℕ), j < t →
+      (∀ n, 1 ≤ n → (gv n).length = n ∧ (labs n).length = n ∧ (∀ g ∈ gv n, g.length = t) ∧
+        DrawsShaped n t (ds n) ∧ (∀ d ∈ ds n, d.reps ≠ []) ∧
+        ∃ (he : e < (ds n).length) (hr : r < (ds n)[e].reps.length),
+          errCol (ds n)[e].reps[r] j = (List.range n).map (fun i => coord i ω)) →
+      Tendsto (fun n => realisedErrVar (envBlocks (gv n) (labs n) 0 (ds n)) (gv n) j e r) atTop
+        (𝓝 (varErr : ℝ)) := by
+  obtain ⟨hL2, hindep, hident, hvar⟩ := coord_iid (gaussianReal 0 varErr) (memLp_id_gaussianReal 2)
+  have := realised_error_variance_converges (L := L) (G := G) coord hL2 hindep hident
+  rw [hvar, variance_id_gaussianReal] at this
+  exact this
+
+end gauss
 
 section toplevel
 variable {G α : Type} [Add α]
@@ -219,7 +319,8 @@ theorem phenotype_unfold (gv : List (List α)) (taxa : Option (List String)) (gr
       cols = ["taxa", "taxa_grp", "env", "rep"] ++ tr ∧ tr.length = t ∧
       (labels tx grp).length = gv.length ∧ (∀ g ∈ gv, g.length = t) ∧
       (∀ d ∈ draws, drawShapeOk gv.length t d = true) ∧
-      envLoop gv (labels tx grp) 0 (nrep.take nenv) draws = some rows := by
+      envLoop gv (labels tx grp) 0 (nrep.take nenv) draws = some rows ∧
+      tx.length = gv.length ∧ (∀ g, grp = some g → g.length = gv.length) := by
   unfold phenotype at h
   split at h
   · rename_i tx tr htx htr
@@ -230,7 +331,7 @@ theorem phenotype_unfold (gv : List (List α)) (taxa : Option (List String)) (gr
       split at h
       · rename_i rws hrun
         simp only [Option.some.injEq, Prod.mk.injEq] at h
-        refine ⟨tx, tr, htx, htr, ?_, h.1.symm, h2, ?_, h3, h5, h.2 ▸ hrun⟩
+        refine ⟨tx, tr, htx, htr, ?_, h.1.symm, h2, ?_, h3, h5, h.2 ▸ hrun, h1, ?_⟩
         · intro l hl
           subst hl
           simp only [namesOrDefault, Option.some.injEq] at htx
@@ -240,13 +341,19 @@ theorem phenotype_unfold (gv : List (List α)) (taxa : Option (List String)) (gr
           | some g =>
             have : g.length = gv.length := by simpa [grpLenOk] using h4
             simp [labels, h1, this]
+        · intro g hg
+          subst hg
+          simpa [grpLenOk] using h4
       · simp at h
     · simp at h
   · simp at h
 
 /-- **The field-trial clause for `phenotype()`**: exactly one record per taxon, environment and replicate, each carrying
-    that taxon's labels (`nenv` environments, `nrep[e]` replicates in environment `e`). -/
-theorem phenotype_one_record_per (gv : List (List α)) (taxa : List String) (grp : Option (List G))
+    that taxon's labels (`nenv` environments, `nrep[e]` replicates in environment `e`) — for every configuration in which
+    the replicate array has one entry per environment.  The constructor establishes that (`constructed_config_consistent`).
+    `_partial`: FULL STATEMENT (any configuration reachable through the public setters, in particular `nenv` re-assigned
+    after construction) is false of the as-is model, see `nenv_reassigned_stale_nrep_counterexample` (D60). -/
+theorem phenotype_one_record_per_partial (gv : List (List α)) (taxa : List String) (grp : Option (List G))
     (trait : Option (List String)) (t nenv : Nat) (nrep : List Nat) (draws : List (Draw α))
     (cols : List String) (rows : List (Rec String G α)) (hn : nrep.length = nenv)
     (h : phenotype gv (some taxa) grp trait t nenv nrep draws = some (cols, rows)) :
@@ -254,7 +361,7 @@ theorem phenotype_one_record_per (gv : List (List α)) (taxa : List String) (grp
     (∀ e (he : e < nrep.length) r, r < nrep[e] →
       (rows.filter (fun x => x.env = e + 1 ∧ x.rep = r + 1)).map (fun x => (x.taxa, x.grp)) = labels taxa grp) ∧
     (∀ x ∈ rows, ∃ e, ∃ (he : e < nrep.length), ∃ r, r < nrep[e] ∧ x.env = e + 1 ∧ x.rep = r + 1) := by
-  obtain ⟨tx, tr, _, _, htx, _, _, hlab, _, hshape, hrun⟩ := phenotype_unfold gv (some taxa) grp trait t nenv nrep draws cols rows h
+  obtain ⟨tx, tr, _, _, htx, _, _, hlab, _, hshape, hrun, _, _⟩ := phenotype_unfold gv (some taxa) grp trait t nenv nrep draws cols rows h
   have := htx taxa rfl
   subst this
   have htake : nrep.take nenv = nrep := by rw [← hn]; exact List.take_length
@@ -265,6 +372,40 @@ theorem phenotype_one_record_per (gv : List (List α)) (taxa : List String) (grp
     simp only [drawShapeOk, Bool.and_eq_true, beq_iff_eq] at this
     exact this.1
   exact one_record_per_taxon_env_rep gv (labels tx grp) nrep draws rows hrun hlab hmat
+
+
+/-- what the constructor (`nenv` then `nrep` assignment, l.116-117) establishes: one positive replicate count per environment -/
+theorem constructed_config_consistent (nenv : Nat) (x : Nat ⊕ List Nat) (nrep : List Nat)
+    (h : nrepSetter nenv x = some nrep) : nrep.length = nenv ∧ ∀ k ∈ nrep, 0 < k := by
+  unfold nrepSetter at h
+  cases x with
+  | inl k =>
+    simp only at h
+    split at h
+    · rename_i hk
+      simp only [Option.some.injEq] at h
+      subst h
+      exact ⟨by simp, fun k' hk' => by rw [List.eq_of_mem_replicate hk']; exact hk⟩
+    · simp at h
+  | inr l =>
+    simp only at h
+    split at h
+    · rename_i hl
+      simp only [Bool.and_eq_true, beq_iff_eq, List.all_eq_true, decide_eq_true_eq] at hl
+      simp only [Option.some.injEq] at h
+      subst h
+      exact hl
+    · simp at h
+
+/-- **D60 (as-is code).**  Constructed with 1 environment and the scalar `nrep = 1`, then `nenv` raised to 2 through its
+    setter: the replicate array keeps its single entry, the trial of 2 taxa returns 2 records (environment 1 only)
+    instead of 4 — no record for environment 2. -/
+theorem nenv_reassigned_stale_nrep_counterexample :
+    ((nrepSetter 1 (.inl 1)).bind (fun nrep0 => (reassignNenv 2 (1, nrep0)).bind (fun cfg =>
+      (phenotype (G := Int) (α := Rat) [[4], [6]] (some ["d", "b"]) none none 1 cfg.1 cfg.2
+        [.vec [0], .vec [0], .mat [[0], [0]], .vec [0], .vec [0], .mat [[0], [0]]]).map
+        (fun cr => (cfg.1, cr.2.length, cr.2.map (fun r => r.env)))))) = some (2, 2, [1, 1]) := by
+  decide +kernel
 
 end toplevel
 
@@ -455,7 +596,7 @@ theorem meanBV_without_genotypes (le : (L × Option G) → (L × Option G) → B
   have hinj : ∀ a ∈ aggKeys le false recs, ∀ b ∈ aggKeys le false recs, a.1 = b.1 → a = b := by
     intro a ha b hb hab
     rw [hkeys a ha, hkeys b hb, hab]
-  simp only [meanBVNoGt, agg, List.map_map]
+  simp only [meanBVNoGt, agg, aggWith, List.map_map]
   refine ⟨?_, ?_, ?_⟩
   · exact (List.nodup_map_iff_inj_on (nodup_aggKeys le false recs)).mpr hinj
   · intro name
@@ -600,6 +741,98 @@ theorem noiseless_pipeline_returns_truth (le : (L × Option G) → (L × Option 
 
 end pipeline
 
+/-! ## 5. default labels -/
+
+/-- **Default labels are pairwise distinct**: an unnamed population of `n ≥ 1` taxa gets `n` different names
+    `pre ++ str(i+1).zfill(ceil(log10 n)+1)` (holds for any padding width). -/
+theorem default_names_distinct (pre : String) (n : Nat) (l : List String) (h : defaultNames pre n = some l) :
+    l.Nodup ∧ l.length = n := defaultNames_nodup pre n l h
+
+section
+variable {G α : Type} [DecidableEq G] [Field α] [CharZero α]
+
+/-- **Truth is preserved end to end for unnamed populations too**: `phenotype()` of a population without taxa names
+    (default names), zero noise, then mean-phenotype estimation against the default names in any order `idx`. -/
+theorem noiseless_pipeline_unnamed (le : (String × Option G) → (String × Option G) → Bool) (useGrp : Bool)
+    (gv : List (List α)) (grp : Option (List G)) (trait : Option (List String)) (t nenv : Nat) (nrep : List Nat)
+    (draws : List (Draw α)) (cols : List String) (rows : List (Rec String G α))
+    (h : phenotype gv none grp trait t nenv nrep draws = some (cols, rows))
+    (huse : useGrp = true → grp.isSome = true)
+    (hzero : ∀ d ∈ draws, match d with
+      | .vec v => ∀ x ∈ v, x = 0
+      | .mat m => ∀ row ∈ m, ∀ x ∈ row, x = 0)
+    (hcell : ∃ e, ∃ (he : e < (nrep.take nenv).length), 0 < (nrep.take nenv)[e]) :
+    ∃ tx, defaultNames "Taxon" gv.length = some tx ∧ tx.Nodup ∧ tx.length = gv.length ∧
+      ∀ idx : List Nat, (∀ i ∈ idx, i < tx.length) →
+        meanBV le useGrp t rows (Np.take idx tx) = (Np.take idx gv).map some := by
+  obtain ⟨tx, tr, htx, _, _, _, _, _, hgv, hshape, hrun, _, hgl⟩ :=
+    phenotype_unfold gv none grp trait t nenv nrep draws cols rows h
+  simp only [namesOrDefault] at htx
+  obtain ⟨hnd, hlen⟩ := defaultNames_nodup "Taxon" gv.length tx htx
+  refine ⟨tx, htx, hnd, hlen, ?_⟩
+  intro idx hidx
+  have hgrp : ∀ g, grp = some g → g.length = tx.length := fun g hg => (hgl g hg).trans hlen.symm
+  exact noiseless_pipeline_returns_truth le useGrp gv tx grp t (nrep.take nenv) draws rows hrun hlen hgrp huse hnd hgv
+    hshape hzero hcell idx hidx
+
+end
+
+/-! ## 6. phenotype tables with missing values (pandas' skip-NaN mean) -/
+section nan
+variable {L G α : Type} [DecidableEq L] [DecidableEq G] [Field α]
+
+/-- **Mean, missing and alignment with NaN cells (`taxa_grp_col = None`).**  Row `i` of the result is, trait by trait, the
+    mean over those records named `gtTaxa[i]` that HAVE a value; missing where none has (all traits, for an unphenotyped
+    taxon).  No hypothesis. -/
+theorem meanBVNan_eq_mean (le : (L × Option G) → (L × Option G) → Bool) (t : Nat)
+    (recs : List (Rec L G (Option α))) (gtTaxa : List L) :
+    meanBVNan le false t recs gtTaxa = gtTaxa.map (meanOrMissingNan t recs) :=
+  meanBVNan_eq le false t recs (fun r _ => ⟨(r.taxa, none), rfl, fun r' _ h => by simp [keyOf, h]⟩) gtTaxa
+
+/-- with `taxa_grp_col` set, for tables in which a name never occurs under two group labels.
+    FULL STATEMENT (false when one name is used under two groups: the hash join keeps the last group only):
+      ∀ useGrp recs gtTaxa, meanBVNan le useGrp t recs gtTaxa = gtTaxa.map (meanOrMissingNan t recs) -/
+theorem meanBVNan_eq_mean_partial (le : (L × Option G) → (L × Option G) → Bool) (useGrp : Bool) (t : Nat)
+    (recs : List (Rec L G (Option α))) (hk : KeyByName useGrp recs) (gtTaxa : List L) :
+    meanBVNan le useGrp t recs gtTaxa = gtTaxa.map (meanOrMissingNan t recs) :=
+  meanBVNan_eq le useGrp t recs hk gtTaxa
+
+/-- one entry spelled out: trait `j` of a phenotyped taxon is `Σ present values / their count`, or missing if no record of
+    the taxon has a value for that trait -/
+theorem meanOrMissingNan_entry (t : Nat) (recs : List (Rec L G (Option α))) (name : L)
+    (hne : recordsOf recs name ≠ []) (j : Nat) (hj : j < t) :
+    (meanOrMissingNan t recs name)[j]? = some
+      (if ((recordsOf recs name).filterMap (fun r => (r.vals[j]?).join)).isEmpty then none
+       else some (Np.sum ((recordsOf recs name).filterMap (fun r => (r.vals[j]?).join)) /
+              (((recordsOf recs name).filterMap (fun r => (r.vals[j]?).join)).length : α))) := by
+  unfold meanOrMissingNan
+  rw [if_neg hne]
+  unfold colMeansNan
+  rw [List.getElem?_eq_getElem (by simpa using hj)]
+  simp [mean, List.filterMap_map]
+
+/-- **Conservative extension**: on a table without missing values the NaN-aware estimate coincides with the plain one
+    (a missing row becoming a row of missing entries) — every theorem of section 3 carries over. -/
+theorem meanBVNan_conservative (le : (L × Option G) → (L × Option G) → Bool) (useGrp : Bool) (t : Nat)
+    (recs : List (Rec L G α)) (hlen : ∀ r ∈ recs, r.vals.length = t) (gtTaxa : List L) :
+    meanBVNan le useGrp t (recs.map liftRec) gtTaxa =
+      (meanBV le useGrp t recs gtTaxa).map (fun o => match o with
+        | none => List.replicate t none
+        | some row => row.map some) :=
+  meanBVNan_lift le useGrp t recs hlen gtTaxa
+
+/-- **Row-order invariance with NaN cells** — every table, every configuration, total order on the keys. -/
+theorem meanBVNan_row_perm_invariant (le : (L × Option G) → (L × Option G) → Bool)
+    (htot : ∀ a b, le a b = true ∨ le b a = true)
+    (htrans : ∀ a b c, le a b = true → le b c = true → le a c = true)
+    (hanti : ∀ a b, le a b = true → le b a = true → a = b)
+    (useGrp : Bool) (t : Nat) (recs recs' : List (Rec L G (Option α))) (hperm : recs.Perm recs') (gtTaxa : List L) :
+    meanBVNan le useGrp t recs gtTaxa = meanBVNan le useGrp t recs' gtTaxa := by
+  unfold meanBVNan
+  rw [aggWith_perm (colMeansNan t) (fun _ _ hp => colMeansNan_perm t hp) le htot htrans hanti useGrp hperm]
+
+end nan
+
 /-! ## non-vacuity: concrete non-trivial inputs meeting the hypotheses (evaluated by the kernel) -/
 
 /-- 3 taxa (names not sorted, grouped), 2 environments with 2 and 1 replicates, two traits, non-zero draws:
@@ -671,5 +904,26 @@ example : meanBVNoGt (α := Rat) keyLe false 1
 
 example : truePhenotype (G := Int) (α := Rat) [[4, 23], [6, 20]] (some ["d", "b"]) (some [2, 1]) none 2 =
     some (["taxa", "taxa_grp", "Trait01", "Trait02"], [("d", some 2, [4, 23]), ("b", some 1, [6, 20])]) := by decide +kernel
+
+/-- NaN cells: skip-NaN mean, a trait without any value stays missing, an unphenotyped taxon is missing everywhere -/
+example : meanBVNan (α := Rat) keyLe true 2
+    [⟨"b", some 1, 1, 1, [some 1, none]⟩, ⟨"a", some 2, 1, 1, [none, some 2]⟩, ⟨"b", some 1, 2, 1, [some 4, none]⟩,
+     ⟨"b", some 1, 3, 1, [none, none]⟩]
+    ["b", "zz", "a"] = [[some (5/2), none], [none, none], [none, some 2]] := by decide +kernel
+
+
+/-- default names: 11 unnamed taxa get 11 different labels of width 3 -/
+example : (defaultNames "Taxon" 11).map (fun l => (l.length, l.head?, l.getLast?, l.eraseDups.length)) =
+    some (11, some "Taxon001", some "Taxon011", 11) := by decide +kernel
+
+/-- the three realised variance components on numbers (2 taxa, environment 1 with 2 replicates, environment 2 with 1;
+    effects env = 1, -1; rep = 1/2, 0, 2; errors +-1, +-2, +-3): error variance of cell (1,1) = Var{1,-1} = 1;
+    replicate variance of environment 1 = Var{1/2, 0} = 1/16; environment variance = Var{1 + 1/4, -1 + 2} = 1/64 -/
+example :
+    (envLoop (L := String) (G := Int) (α := Rat) [[4], [6]] (labels ["d", "b"] none) 0 [2, 1]
+      [.vec [1], .vec [1/2], .mat [[1], [-1]], .vec [0], .mat [[2], [-2]], .vec [-1], .vec [2], .mat [[3], [-3]]]).map
+      (fun rows => (realisedErrVar rows [[4], [6]] 0 0 0, realisedRepVar rows [[4], [6]] 0 0 2,
+                    realisedEnvVar rows [[4], [6]] 0 [2, 1])) = some (1, 1/16, 1/64) := by
+  decide +kernel
 
 end C14
